@@ -48,6 +48,14 @@ Definition sql_is (x y : val) : val := b2v (val_eqb x y).
 Definition lift2 (f : val -> val -> val) (x y : sv) : sv :=
   match x, y with SV a, SV b => SV (f a b) | _, _ => SBad end.
 
+(* `||` on text and NULL (SQLite: NULL if an operand is NULL).  An operand that is a NUMBER is outside the model (SQLite
+   renders it as text first: %!.15g for reals), on whichever side it stands *)
+Definition sql_concat (a b : val) : option val :=
+  match a, b with
+  | VStr s, VStr t => Some (VStr (s ++ t))
+  | VNull, VNull | VNull, VStr _ | VStr _, VNull => Some VNull
+  | _, _ => None
+  end.
 Definition sql_ev (o : sop) (x y : sv) : sv :=
   match o with
   | SOr => lift2 (eval_bop Or) x y | SAnd => lift2 (eval_bop And) x y
@@ -63,7 +71,8 @@ Definition sql_ev (o : sop) (x y : sv) : sv :=
   | SBetween => match x, y with
                 | SV a, SPair lo hi => SV (eval_bop And (eval_bop Ge a lo) (eval_bop Le a hi))
                 | _, _ => SBad end
-  | SLike | SRegexp | STilde | SDivKw | SConcat => SBad
+  | SConcat => match x, y with SV a, SV b => match sql_concat a b with Some v => SV v | None => SBad end | _, _ => SBad end
+  | SLike | SRegexp | STilde | SDivKw => SBad
   end.
 
 Definition sql_evu (u : suop) (x : sv) : sv :=
